@@ -71,6 +71,16 @@ Theorem C01_parse_stable : forall a, wf_ast a -> valid_utf8 (render a) = true ->
 Proof. exact parse_stable_line. Qed.
 Print Assumptions C01_parse_stable.
 
+(* The same, stated on lines: wf_lineb is the grammar recogniser of C02 (exact by
+   C02_recogniser); line_tags_fit: the de-duplicated tag section is within the limit. *)
+Require Import LineGrammar RecogniserProofs.
+Theorem C01_parse_stable_line : forall l e,
+  wf_lineb l = true -> valid_utf8 l = true -> line_tags_fit l = true ->
+  parse_event l = Ok (Some e) ->
+  exists e', parse_event (event_bytes e) = Ok (Some e') /\ wevent_equiv e' e.
+Proof. exact parse_stable_wf_line. Qed.
+Print Assumptions C01_parse_stable_line.
+
 (* Tag maps built through the API -- Tags{} followed by successful Tags.Set calls -- meet
    every condition wf_event puts on a tag map, including the 4094-byte limit: the tag
    hypothesis of C01_encode_parse holds for them. *)
